@@ -257,14 +257,23 @@ Definition ext_assign (minval scale : Q) (c : Z) (K : qcplx) : qcplx :=
               | _ => [(fst p, -(3#1)); (fst p ++ [c], -(3#1))]
               end) K.
 
+(* the cone point: maxvert++; if (maxvert == null_vertex()) maxvert++;   (the second statement is the repair made in /repo
+   for this property; [cone_point_unrepaired] is the code as it stood) *)
+Definition null_vertex : Z := (-1)%Z.
+Definition cone_point_of (maxvert : Z) : Z :=
+  let c := (maxvert + 1)%Z in if Z.eqb c null_vertex then (c + 1)%Z else c.
+Definition cone_point_unrepaired (maxvert : Z) : Z := (maxvert + 1)%Z.
+
 (* vmin = std::numeric_limits<Vertex_handle>::min() *)
-Definition extend_filtration (vmin : Z) (K : qcplx) : qcplx * (Q * Q) :=
+Definition extend_filtration_with (cone : Z -> Z) (vmin : Z) (K : qcplx) : qcplx * (Q * Q) :=
   let vs := vertex_values K in
   let minval := ext_minval vs in
   let maxval := ext_maxval vs in
-  let c := (ext_maxvert vmin vs + 1)%Z in
+  let c := cone (ext_maxvert vmin vs) in
   let scale := ext_scale minval maxval in
   (fst (make_filtration_non_decreasing qlt (ext_assign minval scale c K)), (minval, maxval)).
+Definition extend_filtration := extend_filtration_with cone_point_of.
+Definition extend_filtration_unrepaired := extend_filtration_with cone_point_unrepaired.
 
 Definition op_extend (vmin : Z) (st : state Q) : state Q * (Q * Q) :=
   let r := extend_filtration vmin (fst st) in ((fst r, []), snd r).
